@@ -142,6 +142,80 @@ theorem boundName_injective_partial (cur p : Str) (r₁ r₂ : Str) (ta₁ ta₂
 
 example : identOK "T".toList = true ∧ (Tys.cons (.basic "int".toList) .nil).ok pathOK = true := by decide
 
+/-! ## the repaired naming of synthetic functions (`Cfg.fixed` = fixes/C14-1.diff) -/
+
+/-- the variant switch is conservative: `Cfg.legacy` is the model all theorems above talk about -/
+theorem linkNameInC_legacy : ∀ (cur : Str) (e : Entity), linkNameInC Cfg.legacy cur e = linkNameIn cur e
+  | _, .func .. => rfl
+  | _, .method .. => rfl
+  | _, .closure .. => rfl
+  | _, .instance .. => rfl
+  | _, .global .. => rfl
+  | _, .routine .. => rfl
+  | cur, .bound m => synthName_legacy cur _ m.recv
+  | cur, .thunk m => synthName_legacy cur _ m.recv
+  | cur, .wrapper m => synthName_legacy cur _ m.recv
+  | cur, .stub e => by
+    show "__llgo_stub.".toList ++ linkNameInC Cfg.legacy cur e = "__llgo_stub.".toList ++ linkNameIn cur e
+    rw [linkNameInC_legacy cur e]
+
+
+/-- **Bound-method closures and method-expression thunks under the repaired naming** (fixes/C14-1.diff): within one
+    compiled package the wrappers of different methods have different names — also when the receiver types are
+    declared in different packages. -/
+theorem boundName_injective_fixed (cur p₁ p₂ r₁ r₂ : Str) (ta₁ ta₂ : Tys) (ptr₁ ptr₂ : Bool) (n₁ n₂ sfx : Str)
+    (hp₁ : pathOK p₁ = true) (hp₂ : pathOK p₂ = true) (hr₁ : identOK r₁ = true) (hr₂ : identOK r₂ = true)
+    (ht₁ : ta₁.ok pathOK = true) (ht₂ : ta₂.ok pathOK = true)
+    (h : wrapperName Cfg.fixed cur (n₁ ++ sfx) ⟨p₁, r₁, ta₁, [], ptr₁⟩ = wrapperName Cfg.fixed cur (n₂ ++ sfx) ⟨p₂, r₂, ta₂, [], ptr₂⟩) :
+    Entity.method p₁ r₁ ta₁ ptr₁ n₁ = Entity.method p₂ r₂ ta₂ ptr₂ n₂ := by
+  rw [wrapperName_fixed_eq _ _ _ _ _ _ hp₁, wrapperName_fixed_eq _ _ _ _ _ _ hp₂] at h
+  have h' := List.append_cancel_left h
+  simp only [List.cons.injEq, true_and] at h'
+  by_cases c₁ : p₁ = pathOf cur <;> by_cases c₂ : p₂ = pathOf cur <;> simp only [c₁, c₂, if_true, if_false] at h'
+  · obtain ⟨a, b, c, d⟩ := recv_some_some (r₁ := ⟨pathOf cur, r₁, ta₁, ptr₁⟩) (r₂ := ⟨pathOf cur, r₂, ta₂, ptr₂⟩) hr₁ ht₁ hr₂ ht₂ h'
+    simp only at a b c
+    rw [c₁, c₂, a, b, c, List.append_cancel_right d]
+  · exact (recv_ne_qrecv hp₂ hr₁ hr₂ h').elim
+  · exact (recv_ne_qrecv hp₁ hr₂ hr₁ h'.symm).elim
+  · obtain ⟨a, b, c, d, e⟩ := qrecv_inj hp₁ hp₂ hr₁ hr₂ ht₁ ht₂ h'
+    rw [a, b, c, d, List.append_cancel_right e]
+
+
+example : pathOK "m/a".toList = true ∧ pathOK "m/b".toList = true ∧ identOK "T".toList = true ∧ Tys.nil.ok pathOK = true := by decide
+
+/-- the three method values of the witness program, under the repaired naming -/
+example :
+    String.ofList (linkNameInC Cfg.fixed "m".toList (.bound (.method "m/a".toList "T".toList .nil false "M".toList))) = "m.(m/a.T).M$bound" ∧
+    String.ofList (linkNameInC Cfg.fixed "m".toList (.bound (.method "m".toList "T".toList .nil false "M".toList))) = "m.T.M$bound" ∧
+    String.ofList (linkNameInC Cfg.fixed "m".toList (.thunk (.method "m/b".toList "T".toList .nil true "M".toList))) = "m.(*m/b.T).M$thunk" := by decide
+
+/-- Full statement for function-local receiver types: promoted-method wrappers of two local types of package `cur` with the
+    same identifier `r` (declared in the scopes `s₁`, `s₂`) have different names. False for the tree as pinned, true
+    with the repair. -/
+def localWrapperName_injective (cfg : Cfg) : Prop :=
+  ∀ (cur r : Str) (s₁ s₂ : List Nat) (ptr : Bool) (n : Str),
+    wrapperName cfg cur n ⟨cur, r, .nil, s₁, ptr⟩ = wrapperName cfg cur n ⟨cur, r, .nil, s₂, ptr⟩ → s₁ = s₂
+
+/-- `ssa.FuncName` drops the scope indices: `type L struct{A}` in `f` and `type L struct{B}` in `g` both get the wrapper
+    `m.L.M` (replayed on the real compiler by the check: `f().M(), g().M()` prints `1 1`). -/
+theorem localWrapperName_injective_counterexample : ¬ localWrapperName_injective Cfg.legacy := by
+  intro h
+  have := h "m".toList "L".toList [3, 0] [4, 0] false "M".toList (by decide)
+  cases this
+
+theorem localWrapperName_injective_fixed : localWrapperName_injective Cfg.fixed := by
+  intro cur r s₁ s₂ ptr n h
+  have key : ∀ A B : Str, A ++ (scopeStr s₁ ++ B) = A ++ (scopeStr s₂ ++ B) → s₁ = s₂ := by
+    intro A B h
+    have h2 := List.append_cancel_right (List.append_cancel_left h)
+    exact (scopeStr_inj_prefix s₁ s₂ [] [] rfl rfl (by simpa using h2)).1
+  cases ptr
+  · apply key (pathOf cur ++ '.' :: r) ('.' :: n)
+    simpa [wrapperName, Cfg.fixed, namedName, Tys.isEmpty] using h
+  · apply key (pathOf cur ++ '.' :: '(' :: '*' :: r) (')' :: '.' :: n)
+    simpa [wrapperName, Cfg.fixed, namedName, Tys.isEmpty] using h
+
+
 /-! ## linkname / export directives -/
 
 /-- `//go:linkname f C.sym` binds exactly the declared external symbol: a reference to `f` resolves to `sym`,
